@@ -477,6 +477,10 @@ def deviate(tokens, rng):
         toks.insert(i, toks[i])
         return toks, "dup", not structural
     if what == "comment":
+        # comments are layout: the content still conforms (also behind the last item)
+        i = rng.randrange(n + 1)
+        if i > 0 and toks[i - 1] in ("/begin", "/end"):
+            return deviate(tokens, rng)
         toks.insert(i, rng.choice(["/* c */", "// c\n"]))
         return toks, "comment", True
     if what == "range":
